@@ -307,17 +307,31 @@ def run(ctx):
         rf = prog.fns[rid]
         key = "c17.weekday|second-expansion|%s" % rf.path
         dropped = None
+        unaligned = None
+        has_running_mod7 = False
         for sc in [Scope(prog, bf) for bf in [rf] + prog.closures_of(rf)]:
+            for b, i, st in sc.body.statements():
+                if st["s"] == "assign" and st["rv"]["r"] == "bin" and st["rv"]["op"] == "Rem":
+                    k = strip(sc.operand(st["rv"]["b"]))
+                    if k[0] == "k" and k[1] == "7":
+                        has_running_mod7 = True
             for b, t in sc.body.calls():
                 if short_callee(callee_name(t) or "") == "take":
                     n = strip(sc._rw(sc.eb.call_node(t, b)))
                     inner = strip(n[2][0]) if n[2] else None
-                    if inner is not None and inner[0] == "call" and short_callee(inner[1]) == "skip" and "cycle(" not in show(inner) and "Rem" in show(inner):
+                    if inner is not None and inner[0] == "call" and short_callee(inner[1]) == "skip" and "cycle(" not in show(inner) and ("Rem" in show(inner) or "rem(" in show(inner)):
                         dropped = (show(n)[:120], t.get("ln"))
+                    elif inner is not None and "skip(" not in show(inner) and len(n[2]) > 1 and ("Rem" in show(strip(n[2][1])) or "rem(" in show(strip(n[2][1]))):
+                        # take(count % len) straight from the start of the week: the leftover days of a period are not aligned with its first weekday
+                        unaligned = (show(n)[:120], t.get("ln"))
         if dropped:
             ctx.violation("c17.weekday", key, "%s expands yearly schedules itself and takes the days of a period with `%s`: skip(start %% 7).take(n) without cycle() "
                           "drops the days that run past the end of the week (periods not starting on a Monday lose weekday alignment)" % (rf.path.split("::")[-1], dropped[0]),
                           rf.loc(dropped[1]))
+        elif unaligned and not has_running_mod7:
+            ctx.violation("c17.weekday", key, "%s expands yearly schedules itself and takes the leftover days of each period with `%s`, from the start of the week: nothing "
+                          "tracks the weekday on which the period starts (no running count %% 7, no skip), so a period that starts mid-week is averaged over the wrong "
+                          "weekdays" % (rf.path.split("::")[-1], unaligned[0]), rf.loc(unaligned[1]))
         else:
             raise AnalysisError("%s reads the period counts of yearly schedules itself: a second implementation of the weekday alignment whose arithmetic this rule "
                                 "does not know (only get_year_as_day_sch is decided)" % rf.path)
